@@ -122,9 +122,23 @@ def justify(rng, text, w, kind):
 # ----------------------------------------------------------------------------
 # instants
 
+DST_GAPS = [(2021, 3, 28, 2, 30), (2024, 3, 31, 2, 15), (2021, 3, 14, 2, 30), (2025, 3, 9, 2, 45), (2021, 10, 3, 2, 10), (2022, 10, 2, 2, 20),
+            (2021, 9, 26, 3, 0), (2023, 9, 24, 3, 30), (2016, 3, 27, 2, 59), (2038, 3, 28, 2, 1)]
+
 def rand_instant(rng, cls=None):
     """-> (year, month, day, day_of_year, ms_of_day, us_extra) ; class"""
-    cls = cls or rng.choice(["d1", "d59", "d60", "d365", "d366", "rand", "rand", "first_ms", "last_ms"])
+    cls = cls or rng.choice(["d1", "d59", "d60", "d365", "d366", "rand", "rand", "first_ms", "last_ms", "dst-gap", "rand", "y2000"])
+    if cls == "dst-gap":
+        # wall-clock times that do not exist in some time zone (spring-forward gaps): harmless for a format that has no zone
+        y, m, d, hh, mm = rng.choice(DST_GAPS)
+        import datetime
+
+        doy = (datetime.date(y, m, d) - datetime.date(y, 1, 1)).days + 1
+        ms = ((hh * 60 + mm) * 60 + rng.randrange(0, 60)) * 1000 + rng.choice([0, 5, 50, 120, rng.randrange(0, 1000)])
+        return {"year": y, "doy": doy, "ms": ms, "us": rng.randrange(0, 1000)}, cls
+    if cls == "y2000":
+        # the one year divisible by 400 inside the datetime64[ns] range: leap, day 366 exists
+        return {"year": 2000, "doy": rng.choice([1, 60, 366, 366]), "ms": rng.randrange(0, 86400000), "us": rng.randrange(0, 1000)}, cls
     year = rng.randrange(2014, 2050)
     leap = calendar.isleap(year)
     if cls == "d366":
@@ -507,6 +521,17 @@ def full_image(rng, rng_np, typ, lines, pixels, pattern="random", classes=None, 
         if rec == "sig":
             p["sensor_acquisition_date_microseconds"] = inst["ms"] * 1000 + inst["us"]
         prefix.append(fill_record(rng, rec, p, classes, spare=spare))
+    if lines > 1 and rng.random() < 0.3:
+        # some per-line columns hardly vary over an image (slant range, PRF, latitudes ...): constant, or drifting by one
+        # unit in the last place from line to line
+        numeric = [f for f in synth.fields(rec) if synth.base_kind(f) in ("u32", "u16", "u64") and f["kind"] not in ("enum", "flag")
+                   and f["name"] not in PER_FILE_CONSTANTS and not is_padding(f) and not f["name"].startswith(("preamble.", "sensor_acquisition", "sar_image_data_line_number", "actual_count"))]
+        for f in rng.sample(numeric, min(len(numeric), rng.randrange(1, 6))):
+            bits = int(synth.base_kind(f)[1:])
+            base = rng.choice([rng.randrange(2 ** (bits - 2), 2 ** (bits - 1)), rng.randrange(10 ** 6, 10 ** 9) % 2 ** bits])
+            drift = rng.choice([0, 1, 1, 3])
+            for k, pre in enumerate(prefix):
+                pre[f["name"]] = min(2 ** bits - 1, base + k * drift)
     fd = fill_record(rng, "img_fd", {}, classes, spare=spare)
     opt = ["prefix_suffix_data_locators.maximum_data_range_of_pixel", "prefix_suffix_data_locators.number_of_burst_data",
            "prefix_suffix_data_locators.number_of_lines_per_burst",
@@ -530,7 +555,7 @@ POLS = ["HH", "HV", "VH", "VV"]
 
 def rich_product(rng, np_seed, level=None, n_images=None, scans=None, geoms=None, max_lines=12, max_pixels=8,
                  pattern=None, classes=None, leader_kw=None, summary_order=None, newline="\n", spare=False,
-                 mode=None, optproj=None, image_order=None, pols=None):
+                 mode=None, optproj=None, image_order=None, pols=None, scene=None):
     """a product in which every record carries random admissible content.
 
     -> (files, info) ; info has names, order, per-image models (type/lines/pixels), leader/volume parameters
@@ -546,7 +571,10 @@ def rich_product(rng, np_seed, level=None, n_images=None, scans=None, geoms=None
     pols = list(pols) if pols else pols_
     if len(pols) * len(scans) > 8:
         pols = pols[: max(1, 8 // len(scans))]
-    names = product_names(level, mode=mode or ("WBD" if scans != [None] else "FBD"), pols=pols, scans=scans, optproj=optproj)
+    if scene is None and rng.random() < 0.5:
+        scene = rand_scene(rng)
+    names = product_names(level, mode=mode or ("WBD" if scans != [None] else "FBD"), pols=pols, scans=scans, optproj=optproj,
+                          **({"scene": scene} if scene else {}))
     if image_order == "scan-major":
         names["imgs"].sort(key=lambda n: (n.rsplit("-", 1)[-1], n))
     elif image_order == "reversed":
@@ -572,3 +600,22 @@ def rich_product(rng, np_seed, level=None, n_images=None, scans=None, geoms=None
         rng.shuffle(entries)
     files["summary.txt"] = synth.summary_text(entries, newline).encode()
     return files, {"names": names, "order": order, "images": images, "leader": ledinfo, "volume": volinfo, "level": level}
+
+
+def rand_scene(rng):
+    """a scene id with a random orbit / frame and an acquisition date incl. leap days, month ends and the year's ends"""
+    import calendar as cal
+
+    y = rng.randrange(2014, 2050)
+    cls = rng.choice(["leap-day", "leap-day", "rand", "rand", "new-year", "year-end", "month-end"])
+    if cls == "leap-day":
+        y = rng.choice([yy for yy in range(2014, 2050) if cal.isleap(yy)])
+        m, d = 2, 29
+    elif cls == "new-year":
+        m, d = 1, 1
+    elif cls == "year-end":
+        m, d = 12, 31
+    else:
+        m = rng.randrange(1, 13)
+        d = cal.monthrange(y, m)[1] if cls == "month-end" else rng.randrange(1, cal.monthrange(y, m)[1] + 1)
+    return f"ALOS2{rng.randrange(0, 10 ** 5):05d}{rng.randrange(0, 10 ** 4):04d}-{y % 100:02d}{m:02d}{d:02d}"
